@@ -365,6 +365,88 @@ func ruleSchemaCanonical(c *core.Ctx) {
 		})
 	}
 	c.Check(cleared, rule, "GetProtocolSchema/computed fields cleared", d.Pos(), "ComputedFields = nil on the record clone", "computed fields stay in the schema: editing a computed field (not wire relevant) changes the schema")
+	// ... and the traversal that collects the referenced types goes on in the clone, not in the original record
+	// (fix c02091e: a type named only in a computed field — `y: x as MyInt` — was listed in the schema)
+	for _, fd := range declsCalledInPkg(c, d, 2) {
+		ast.Inspect(fd.Body, func(n ast.Node) bool {
+			fl, ok := n.(*ast.FuncLit)
+			if !ok || len(fl.Type.Params.List) < 2 {
+				return true
+			}
+			var nodeParam types.Object
+			last := fl.Type.Params.List[len(fl.Type.Params.List)-1]
+			if len(last.Names) == 1 {
+				nodeParam = info.Defs[last.Names[0]]
+			}
+			if nodeParam == nil {
+				return true
+			}
+			// the statement list (case clause / block) that holds the clearing assignment
+			var holder []ast.Stmt
+			var clearing ast.Node
+			ast.Inspect(fl.Body, func(m ast.Node) bool {
+				var list []ast.Stmt
+				switch x := m.(type) {
+				case *ast.CaseClause:
+					list = x.Body
+				case *ast.BlockStmt:
+					list = x.List
+				}
+				for _, st := range list {
+					hit := false
+					ast.Inspect(st, func(k ast.Node) bool {
+						if as, ok := k.(*ast.AssignStmt); ok && len(as.Lhs) == 1 {
+							if se, ok := as.Lhs[0].(*ast.SelectorExpr); ok && se.Sel.Name == "ComputedFields" {
+								if tv, ok := info.Types[as.Rhs[0]]; ok && tv.IsNil() {
+									hit = true
+									clearing = as
+								}
+							}
+						}
+						return true
+					})
+					if hit {
+						if _, isCC := m.(*ast.CaseClause); isCC || holder == nil {
+							holder = list
+						}
+					}
+				}
+				return true
+			})
+			if holder == nil {
+				return true
+			}
+			// in that clause: node is rebound, or the clause visits the children of something else and leaves
+			rebound, visitsOther, leaves := false, false, false
+			for _, st := range holder {
+				ast.Inspect(st, func(k ast.Node) bool {
+					switch x := k.(type) {
+					case *ast.AssignStmt:
+						for _, l := range x.Lhs {
+							if identObj(info, l) == nodeParam && x.Pos() > clearing.Pos() {
+								rebound = true
+							}
+						}
+					case *ast.CallExpr:
+						if se, ok := ast.Unparen(x.Fun).(*ast.SelectorExpr); ok && se.Sel.Name == "VisitChildren" && len(x.Args) >= 1 && x.Pos() > clearing.Pos() {
+							if o := identObj(info, x.Args[0]); o != nil && o != nodeParam {
+								visitsOther = true
+							}
+						}
+					}
+					return true
+				})
+			}
+			if len(holder) > 0 {
+				if _, ok := holder[len(holder)-1].(*ast.ReturnStmt); ok {
+					leaves = true
+				}
+			}
+			c.Check(rebound || (visitsOther && leaves), rule, "GetProtocolSchema/traversal continues in the clone", clearing.Pos(), "after clearing the computed fields the children of the clone are visited",
+				"the computed fields are cleared on a copy, but the traversal goes on in the original record: a type that only a computed field mentions is listed in the schema, so editing a computed field changes the schema although nothing on the wire changes")
+			return true
+		})
+	}
 	// removeComments covers every struct with a marshalled Comment field
 	_, rd, _ := c.Func("pkg/dsl", "removeComments")
 	if rd == nil {
